@@ -203,6 +203,42 @@ func indirectUseSpecs() []specCase {
 			out = append(out, specCase{fmt.Sprintf("C08/indirect/fieldsof-two-names-long-chain/n=%d/ptr=%d", n, ptr), g})
 		}
 	}
+	// two separate wire.FieldsOf items over one struct, one of them (or one of three) entirely unused: the unused call
+	// is reported whatever its neighbours contribute; the same two fields in ONE call are accepted (one item)
+	for variant := 0; variant < 4; variant++ {
+		for ptr := 0; ptr < 2; ptr++ {
+			variant, ptr := variant, ptr
+			g := &GraphSpec{}
+			g.custom = func(b *ir.Builder) *ir.Program {
+				p := b.Root
+				tn, td, te := b.Leaf(p, "Name"), b.Leaf(p, "Debug"), b.Leaf(p, "Extra")
+				cfgT := b.Agg(p, "Config", &ir.Field{Name: "Name", T: tn}, &ir.Field{Name: "Debug", T: td}, &ir.Field{Name: "Extra", T: te})
+				var parent *ir.Type = cfgT
+				if ptr == 1 {
+					parent = ir.Ptr(cfgT)
+				}
+				app := b.Leaf(p, "App")
+				items := []*ir.Item{ir.FuncItem(&ir.Func{Pkg: p, Name: "PConfig", Out: parent})}
+				switch variant {
+				case 0: // used call first, unused call second
+					items = append(items, ir.FieldsOfItem(cfgT, ptr == 1, "Name"), ir.FieldsOfItem(cfgT, ptr == 1, "Debug"))
+				case 1: // unused first
+					items = append(items, ir.FieldsOfItem(cfgT, ptr == 1, "Debug"), ir.FieldsOfItem(cfgT, ptr == 1, "Name"))
+				case 2: // three calls, the middle one unused
+					items = append(items, ir.FieldsOfItem(cfgT, ptr == 1, "Name"), ir.FieldsOfItem(cfgT, ptr == 1, "Debug"), ir.FieldsOfItem(cfgT, ptr == 1, "Extra"))
+				case 3: // one call listing both: accepted
+					items = append(items, ir.FieldsOfItem(cfgT, ptr == 1, "Name", "Debug"))
+				}
+				deps := []*ir.Type{tn}
+				if variant == 2 {
+					deps = append(deps, te)
+				}
+				items = append(items, ir.FuncItem(&ir.Func{Pkg: p, Name: "NewApp", Params: deps, Out: app}))
+				return &ir.Program{Root: p, Injectors: []*ir.Injector{{Name: "Init", Out: app, Items: items}}}
+			}
+			out = append(out, specCase{fmt.Sprintf("C08/indirect/separate-fieldsof-calls/variant=%d/ptr=%d", variant, ptr), g})
+		}
+	}
 	// a chain of bindings written directly in wire.Build: every binding of the chain contributes, whichever end is consumed
 	permutations(3, func(perm []int) {
 		for _, mask := range []int{1, 3, 5} {
